@@ -295,8 +295,33 @@ example : ∃ f, (wrun demoEnv (World.init 1) demoOps).1.file 0 = some f ∧ FIn
 example : (wrun demoEnv (World.init 1) demoOps).2.map Prod.fst = [0, 0, 0, 0, 0, 0, -60, 0, 0, 0, 0, 0, 0, -38] := by
   decide
 
+/-! ### the real hash function -/
+
+/-- **bernstein_in_table**: for every name (any bytes, any length) and every table size the library can
+    be configured with (1 ≤ size < 2³²; a size of 0 is rejected when the hint is parsed), the value
+    ncmpio_Bernstein_hash returns — used by the C directly as the index into `nameT[]` — lies inside
+    the table. -/
+theorem bernstein_in_table (size : Nat) (nm : Name) (h1 : 1 ≤ size) (h2 : size < 2^32) : bernstein size nm < size := by
+  unfold bernstein
+  simp only [UInt32.toNat_and]
+  have hm : (UInt32.ofNat size - 1).toNat = size - 1 := by
+    rw [UInt32.toNat_sub_of_le]
+    · simp [UInt32.toNat_ofNat']; omega
+    · rw [UInt32.le_iff_toNat_le]; simp [UInt32.toNat_ofNat']; omega
+  refine Nat.lt_of_le_of_lt Nat.and_le_right ?_
+  rw [hm]; omega
+
+/-- the model indexes buckets with `key h size nm = h size nm % size`; for the real hash function the
+    reduction is the identity, i.e. the model's bucket is the C's bucket `nameT[HASH_FUNC(name, size)]` -/
+theorem key_bernstein (size : Nat) (nm : Name) (h1 : 1 ≤ size) (h2 : size < 2^32) :
+    key bernstein size nm = bernstein size nm :=
+  Nat.mod_eq_of_lt (bernstein_in_table size nm h1 h2)
+
+/-- non-vacuity / regression anchor: concrete values, also compared with the compiled C by the harness -/
+example : bernstein 256 [0x74, 0x69, 0x6d, 0x65] = 142 ∧ bernstein 64 [] = 0 := by decide
+
 def obligations : List String := [
-  "hash_inv_empty", "hash_inv_insert", "hash_inv_delete", "hash_inv_replace", "hash_inv_copy",
+  "bernstein_in_table", "key_bernstein", "hash_inv_empty", "hash_inv_insert", "hash_inv_delete", "hash_inv_replace", "hash_inv_copy",
   "hash_inv_populate", "hash_inv_mem", "lookup_by_name_eq_spec", "name_id_agree",
   "def_dim_refines", "rename_dim_refines", "def_var_refines", "rename_var_refines", "put_att_refines",
   "rename_att_refines", "del_att_refines", "copy_att_refines_counterexample", "copy_att_refines_partial",
